@@ -287,7 +287,21 @@ def _encoded(kind):
     if kind == "deflate-raw":
         c = zlib.compressobj(wbits=-15)
         return c.compress(PLAIN) + c.flush(), "deflate"
+    if kind in ("deflate-zlib-members", "deflate-raw-members", "gzip-members-aligned"):
+        # several members whose decoded sizes are multiples of the read limits used (4, 64): an output
+        # budget can be used up exactly at a member boundary with the next member already in the buffer
+        out = b""
+        for part in MEMBERS:
+            if kind == "gzip-members-aligned":
+                out += gzip.compress(part, mtime=0)
+            else:
+                c = zlib.compressobj(wbits=15 if kind == "deflate-zlib-members" else -15)
+                out += c.compress(part) + c.flush()
+        return out, ("gzip" if kind.startswith("gzip") else "deflate")
     raise ValueError(kind)
+
+
+MEMBERS = [bytes(range(64)), b"m" * 64, b"tailend"]
 
 
 def real_codec(ctx, kind="gzip", corrupt=False):
@@ -307,6 +321,7 @@ def real_codec(ctx, kind="gzip", corrupt=False):
 
     _hp.ZLibDecompressor = compression_utils.ZLibDecompressor
     enc_body, token = _encoded(kind)
+    plain = b"".join(MEMBERS) if "members" in kind and kind != "gzip-2-members" else PLAIN
     if corrupt:
         pos = ctx.pick("flip_at", [12, len(enc_body) // 2, len(enc_body) - 12])
         enc_body = enc_body[:pos] + bytes([enc_body[pos] ^ 0x5A]) + enc_body[pos + 1:]
@@ -400,7 +415,7 @@ def real_codec(ctx, kind="gzip", corrupt=False):
         return False, "inv:codec", info
     tag = f"codec:{kind}:{'corrupt' if corrupt else 'ok'}"
     if corrupt:
-        if state["err"] is None and state["got"] == PLAIN:
+        if state["err"] is None and state["got"] == plain:
             return True, tag + ":harmless-flip", None  # (a flipped bit in a header field zlib ignores)
         if state["err"] is None:
             info.update(key="corrupt-encoding-delivered-as-complete-body", got=len(state["got"]))
@@ -409,8 +424,8 @@ def real_codec(ctx, kind="gzip", corrupt=False):
     if state["err"] is not None:
         info.update(key="valid-body-raises:" + state["err"])
         return False, "inv:codec", info
-    if state["got"] != PLAIN:
-        info.update(key="decoded-bytes-differ-from-reference", got=len(state["got"]), want=len(PLAIN))
+    if state["got"] != plain:
+        info.update(key="decoded-bytes-differ-from-reference", got=len(state["got"]), want=len(plain))
         return False, "inv:codec", info
     return True, tag, None
 
@@ -493,7 +508,8 @@ def jobs(tier):
                             limits=lim))
         out.append(dict(name=f"flow-length-{enc}", func="body_flow",
                         params=dict(framing="length", compressed=True, encoding=enc, light=quick), limits=lim))
-    for kind in ("gzip", "gzip-2-members", "deflate-zlib", "deflate-raw"):
+    for kind in ("gzip", "gzip-2-members", "deflate-zlib", "deflate-raw", "deflate-zlib-members", "deflate-raw-members",
+                 "gzip-members-aligned"):
         out.append(dict(name=f"codec-{kind}", func="real_codec", params=dict(kind=kind), limits=lim))
     out.append(dict(name="codec-gzip-corrupt", func="real_codec", params=dict(kind="gzip", corrupt=True), limits=lim))
     out.append(dict(name="client-max-size", func="max_size", params={}, limits=lim))
